@@ -18,7 +18,7 @@ RULE = ("per curve accepted by the build: (law) ep_neg/add_*/sub/dbl_*/norm/norm
         "written raw in affine / the routine's native projective system with Z in {1, 2, p-1, small, random}, every "
         "operand relation (generic, P=Q, P=-Q, identity operands in every encoding the library itself produces, "
         "points of order 2 and 3 where the curve has them, P-Q of order 2) x coordinate pair x alias pattern is "
-        "enumerated once and then sampled; (mul) every ep_mul_* / ep_mul_pre_*+ep_mul_fix_* on subgroup points "
+        "enumerated once and then sampled (incl. distinct points with equal / opposite y); (mul) every ep_mul_* / ep_mul_pre_*+ep_mul_fix_* on subgroup points "
         "(O, G, small multiples, random) with scalars 0,+-1,2,n-1,n,n+1,2n,jn+-1,n^2,negatives,2^j,2^j-1,alternating "
         "patterns, up to RLC_BN_BITS bits, GLV boundary values; (sim) every ep_mul_sim_* on pairs incl. P=Q, P=-Q, O, "
         "sim_lot for n=0..40, sim_dig for n=0..40 (n=0 of sim_dig / norm_sim: one directed case).  Scalar classes: residue (r0: k=0 mod n, k!=0; r1: k=1 mod n; r) and range "
@@ -475,6 +475,23 @@ class W(object):
             if Q == cv.ord2:
                 return None
             return C.add(Q, cv.ord2), Q
+        if rel in ("samey", "sameyneg"):
+            # two distinct points with the same y: the other roots of x^2 + x1 x + x1^2 + a (for a = 0: beta * x1)
+            p = cv.p
+            for _ in range(40):
+                P = self.pick_point(cv, False)
+                x1, y1 = P
+                s_ = sqrt_mod((-3 * x1 * x1 - 4 * cv.a) % p, p)
+                if s_ is None or s_ == 0 or y1 == 0:
+                    continue
+                if rng.random() < 0.5:
+                    s_ = p - s_
+                x2 = (-x1 + s_) * pow(2, -1, p) % p
+                Q = (x2, y1)
+                if x2 == x1 or not C.on_curve(Q):
+                    continue
+                return P, (Q if rel == "samey" else C.neg(Q))
+            return None
         P = self.pick_point(cv, False)
         if rel == "eq":
             return P, P
@@ -505,6 +522,10 @@ class W(object):
             if cv.ord3 is not None and C.eq(C.dbl(P), C.neg(P)):
                 return "ord3"
             return "opp"
+        if P[1] == Q[1]:
+            return "samey"
+        if (P[1] + Q[1]) % cv.p == 0:
+            return "sameyneg"
         if cv.ord2 is not None:
             D = C.sub(P, Q)
             if D is not None and D[1] == 0:
@@ -780,7 +801,7 @@ class W(object):
                 unfns.append(("ep_dbl_" + sysn, self.sysof[sysn]))
         unfns.append(("ep_dbl", self.native))
         anysys = [self.BASIC, self.PROJC, self.JACOB]
-        rels = ["gen", "eq", "opp", "OO", "OQ", "PO", "dblrel", "eq2", "ord3", "diff2"]
+        rels = ["gen", "eq", "opp", "OO", "OQ", "PO", "dblrel", "eq2", "ord3", "diff2", "samey", "sameyneg"]
 
         def coordsets(native):
             return [B] if native == B else [B, native]
@@ -832,7 +853,8 @@ class W(object):
                             self.law_norm_sim(cv, n, inplace, withinf, mode)
         # ---- random sampling
         N = ctx.n(16000, 300000)
-        relw = ["gen"] * 6 + ["eq", "eq", "opp", "opp", "OO", "OQ", "PO", "dblrel", "eq2", "ord3", "diff2", "diff2"]
+        relw = ["gen"] * 6 + ["eq", "eq", "opp", "opp", "OO", "OQ", "PO", "dblrel", "eq2", "ord3", "diff2", "diff2",
+                              "samey", "samey", "sameyneg", "sameyneg"]
         for it in range(N):
             c = rng.randrange(20)
             if c < 10:
